@@ -419,6 +419,24 @@ func (x *rgen) grammar(id int, prec bool) jsGrammar {
 			}
 		}
 	}
+	if x.dup && r.Intn(4) == 0 {
+		// sibling rules whose lengths coincide only when state markers are counted: A: t1 .m | t2 t1  (and longer variants)
+		if len(g.Markers) == 0 {
+			g.Markers = []string{"m0", "m1"}
+		}
+		a := nT + r.Intn(nNT)
+		t1, t2 := 1+r.Intn(nT-1), 1+r.Intn(nT-1)
+		k := r.Intn(2)
+		short := []int{t1}
+		long := []int{t2, t1}
+		for i := 0; i < k; i++ {
+			short = append(short, t1)
+			long = append(long, t1)
+		}
+		pos := r.Intn(len(short) + 1)
+		withMarker := append(append(append([]int{}, short[:pos]...), -1-r.Intn(2)), short[pos:]...)
+		g.Rules = append(g.Rules, jsRule{LHS: a, RHS: withMarker}, jsRule{LHS: a, RHS: long})
+	}
 	g.Inputs = []jsInput{{nT, r.Intn(4) != 0}}
 	if nNT > 1 && r.Intn(3) == 0 {
 		g.Inputs = append(g.Inputs, jsInput{nT + 1 + r.Intn(nNT-1), r.Intn(2) == 0})
